@@ -124,6 +124,12 @@ func genericFor(id string, p *Prog, r *Report) {
 		genericStale(p, r, sc.staleRule, sc.mods, sc.stFloor)
 	}
 	switch id {
+	case "C04":
+		denomLinkRule(p, r, "R04.8", modset("liquidity"), 4)
+		executeOnceRule(p, r, "R04.9", 4)
+	case "C06":
+		denomLinkRule(p, r, "R06.5", modset("liquidity"), 4)
+		executeOnceRule(p, r, "R06.6", 4)
 	case "C01":
 		recordLinkRule(p, r, "R01.9", modset("vault"), 15)
 	case "C02":
